@@ -1405,7 +1405,16 @@ def scan_parallel(repo):
     """[(file, line, directive text, integers of its if(...) clause)] for every OpenMP directive / thread
     construct in the t-SNE headers (comments stripped, continuation lines joined)."""
     found = []
-    for rel in OMP_FILES:
+    files = list(OMP_FILES)
+    try:        # any further header that appears beside the three
+        bdir = os.path.join(repo, "include/tapkee/external/barnes_hut_sne")
+        for f in sorted(os.listdir(bdir)):
+            rel = "include/tapkee/external/barnes_hut_sne/" + f
+            if rel not in files and f.endswith((".hpp", ".h", ".hxx", ".ipp")):
+                files.append(rel)
+    except OSError:
+        pass
+    for rel in files:
         try:
             orig = open(os.path.join(repo, rel), errors="replace").read()
         except OSError:
